@@ -22,7 +22,7 @@ PATHS = ["m.onnx", "d/m.onnx", "/abs/m", "a.b/c.d", "./m", "x/../y.onnx", "dir.o
 BASES = ["m.onnx", "m.onnx", "m", "c.d", "m", "y.onnx", "model", "m.onnx.data"]
 
 
-def save_prop(has_value: List[bool], pi: int, verbose: bool, tqdm_present: bool, fault: bool) -> bool:
+def save_prop(has_value: List[bool], pi: int, verbose: bool, tqdm_present: bool, fault: bool, is_input: List[bool] = ()) -> bool:
     path = PATHS[pi]
     inits = []
     for i, hv in enumerate(has_value):
@@ -30,7 +30,9 @@ def save_prop(has_value: List[bool], pi: int, verbose: bool, tqdm_present: bool,
             ir.Value(name=f"w{i}", type=ir.TensorType(ir.DataType.FLOAT), shape=ir.Shape([1]),
                      const_value=(TENS[i] if hv else None))
         )
-    g = ir.Graph([], [], nodes=[], initializers=inits, opset_imports={"": 18}, name="g")
+    # an initializer may also be a graph input (an overridable default): the guard must not depend on that
+    g_inputs = [v for v, isin in zip(inits, list(is_input) + [False] * len(inits)) if isin]
+    g = ir.Graph(g_inputs, [], nodes=[], initializers=inits, opset_imports={"": 18}, name="g")
     model = ir.Model(g, ir_version=9)
     before = [(k, v, v.const_value) for k, v in g.initializers.items()]
     calls = []
@@ -88,12 +90,12 @@ def save_prop(has_value: List[bool], pi: int, verbose: bool, tqdm_present: bool,
 def _ob(n):
     return {
         "id": f"c20.save.n{n}",
-        "sig": "has_value: List[bool], pi: int, verbose: bool, tqdm_present: bool, fault: bool",
-        "pres": [f"len(has_value) == {n}", f"0 <= pi < {len(PATHS)}"],
-        "call": "H.save_prop(has_value, pi, verbose, tqdm_present, fault)",
-        "timeout": 120, "tiers": ("quick", "thorough"),
+        "sig": "has_value: List[bool], is_input: List[bool], pi: int, verbose: bool, tqdm_present: bool, fault: bool",
+        "pres": [f"len(has_value) == {n}", f"len(is_input) == {n}", f"0 <= pi < {len(PATHS)}"],
+        "call": "H.save_prop(has_value, pi, verbose, tqdm_present, fault, is_input)",
+        "timeout": 120, "timeout_thorough": 1200, "tiers": ("quick", "thorough") if n <= 2 else ("thorough",),
         "functions": ["onnxscript._framework_apis.torch_2_5:save_model_with_external_data"],
-        "bounds": f"{n} initializers, each with/without const_value (symbolic); {len(PATHS)} path shapes; verbose/tqdm/fault symbolic",
+        "bounds": f"{n} initializers, each with/without const_value and being a graph input or not (symbolic); {len(PATHS)} path shapes; verbose/tqdm/fault symbolic",
         "stubs": ["ir.save -> recording stub raising OSError under a symbolic flag", "importlib.util.find_spec and tqdm -> stubs"],
     }
 
